@@ -403,6 +403,14 @@ pub fn c12() -> i32 {
             s.horizon = 5 + cycles * 12 + 5;
             s.probe = 130;
             s.checks = CK_C02 | CK_SIZES;
+            // the same with an application that polls on its own before every tick: the queue is
+            // also looked at right after those bare polls
+            let mut x = s.clone();
+            for r in 0..x.horizon + x.probe {
+                x.script.push(ScriptItem { round: r, node: 0, action: Action::Poll });
+            }
+            x.name = format!("{} polls-before-every-tick", x.name);
+            scns.push(x);
             scns.push(s);
         }
         // several events pushed by ONE advance_frame call onto a full queue: diverging games with
